@@ -221,6 +221,81 @@ def ob_sites(run, mir, rp, fam):
     e2.prove(run, ob2, ex2, [], conj(claims2), {}, fam.as_replay("call-site:", only=["call-"]))
 
 
+def _subterms(t, seen=None):
+    seen = {} if seen is None else seen
+    stack = [t]
+    while stack:
+        x = stack.pop()
+        if x.get_id() in seen:
+            continue
+        seen[x.get_id()] = x
+        stack.extend(x.children())
+    return seen
+
+
+def ob_declared_raises(run, mir, rp, fam):
+    ob = run.ob("declared-raises", "E2", "gen_def FunDef arm: one iteration of the loop over the raises clause goes on only if the class "
+                "of the declared name is known and descends from Exception (anything else is an error); the body is generated in an "
+                "environment obtained by adding the declared raises to the caught set (and marked as inside a function)",
+                ["gen_def (FunDef)", "gen_def::{closure}s"])
+    DEF_RS = ckern.GEN + "definition.rs"
+    fn = e2.find1(mir, file=DEF_RS, name="gen_def")
+    ex = Exec(mir, max_paths=60000)
+    st = State()
+    _rel, lay = ckern.node_enum()
+    mk = lambda n: ckern.mk_ast(n, opq(n + ".node", "Node"))
+    (idn, _p0), (body, _bp) = mk("id"), mk("body")
+    idr, bodyr = Ref(ex.new_cell(st, idn)), Ref(ex.new_cell(st, body))
+    vals = {"id": idr, "args": opq("args", "Vec<AST>"), "ret": opq("ret", "Option<Box<AST>>"), "raises": opq("raises", "Vec<AST>"),
+            "body": Agg("Option", "Some", [bodyr]), "pure": z3.Bool("pure")}
+    if sorted(vals) != sorted(lay["FunDef"]):
+        raise Unsupported(f"Node::FunDef fields changed: {lay['FunDef']}")
+    node = ckern.mk_node("FunDef", {k: vals[k] for k in lay["FunDef"]})
+    ast, _ = ckern.mk_ast("ast", node)
+    env, ev = ckern.sym_env(ex, st)
+    ctx, constr = ckern.refs(ex, st, "ctx", "constr")
+    ends = e2.run_kernel(run, ex, fn, [Ref(ex.new_cell(st, ast)), env, ctx, constr], st)
+    claims, n_loop, n_body = [], 0, 0
+    for p in ends:
+        c = conj(p.cond)
+        s = p.state
+        hp = [ev_ for ev_ in p.events if ev_["name"].endswith("::has_parent")]
+        if p.kind == "loop_back":
+            # the only loop of the arm whose body asks has_parent is the raises loop
+            if not hp:
+                continue
+            n_loop += 1
+            r = hp[-1]["ret"]
+            okv = ex.project(s, ex.project(s, r, ("v", "Ok")), ("f", 0), "bool")
+            cls = calls(p, "Context.LookupClass::class")
+            exn = [ev_ for ev_ in p.events if ev_["name"].endswith("From::from") and ev_["args"] and isinstance(ev_["args"][0], StrC)
+                   and ev_["args"][0].s == "Exception"]
+            spec = [ex.discr(s, r, "Result") == 0, okv if z3.is_bool(okv) else z3.BoolVal(False), z3.BoolVal(bool(cls)), z3.BoolVal(bool(exn))]
+            if exn:
+                spec.append(hp[-1]["argvals"][1] == ex.to_val(s, exn[0]["ret"]))
+            if cls:
+                spec.append(ex.discr(s, cls[-1]["ret"], "Result") == 0)
+            claims.append(z3.Implies(c, conj(spec)))
+        elif result_kind(p) == "Ok":
+            gens = [g for g in calls(p, "generate") if z3.eq(g["argvals"][0], ex.to_val(s, bodyr))]
+            rc = calls(p, "Environment::raises_caught")
+            inf = calls(p, "Environment::in_fun")
+            if len(gens) != 1:
+                claims.append(z3.Not(c))
+                continue
+            n_body += 1
+            sub = _subterms(gens[0]["argvals"][1])
+            ok = bool(rc) and any(ex.to_val(s, r_["ret"]).get_id() in sub for r_ in rc) and \
+                bool(inf) and any(ex.to_val(s, i_["ret"]).get_id() in sub for i_ in inf)
+            # what is added to the caught set is built from the raises clause of this definition
+            from_clause = bool(rc) and any(ex.to_val(s, vals["raises"]).get_id() in _subterms(r_["argvals"][1]) for r_ in rc)
+            claims.append(z3.Implies(c, z3.BoolVal(ok and from_clause)))
+    if not n_loop or not n_body:
+        raise Unsupported(f"raises loop paths {n_loop}, body paths {n_body}")
+    e2.prove(run, ob, ex, [], conj(claims), {}, fam.as_replay("declared-raises:", only=["declare-", "raise-declared", "call-declared", "call-in-loop-handled"]))
+    run.samples.append({"obligation": ob.id, "paths": len(ends), "raises_loop_paths": n_loop, "body_paths": n_body})
+
+
 def run(run):
     mir = e2.load_mir(run)
     rp = common.Replay()
@@ -230,7 +305,7 @@ def run(run):
                "outside: hierarchy depth, the try/except translation (converter), declared raises of methods resolved in the unifier")
     run.trusted += ["rustc nightly MIR dump", "mirsym MIR semantics", "z3"]
     run.bounds = {"raised": 2, "caught": 2}
-    for f in (ob_check_raises, ob_handle_scope, ob_sites):
+    for f in (ob_check_raises, ob_handle_scope, ob_sites, ob_declared_raises):
         try:
             f(run, mir, rp, fam)
         except Unsupported as e:
